@@ -96,6 +96,8 @@ def writeVal (heap : HeapView) : Nat → Val → Option (List Chunk)
   | _+1, .giter _ => some []
   | _+1, .userfn .. => none        -- *userFunction is a fmt.Stringer: its source text would be written
   | _+1, .opaque _ _ => none
+  | _+1, .struct .. => some []     -- a struct that is neither Stringer nor HTMLer falls through the type switch
+  | _+1, .ptr .. => some []        -- a typed nil pointer prints nothing (guard); a pointer to such a struct falls through
 def writeVals (heap : HeapView) : Nat → List Val → Option (List Chunk)
   | 0, _ => none
   | _+1, [] => some []
